@@ -60,6 +60,7 @@ def run(ctx):
                      holds=False, key="C08/R1 unaudited-reply-type %s" % T.strip_generics(it["self"]))
     r2_into_result(chk, fx)
     r3_errors_integrity(chk, fx)
+    r5_wrappers_keep_the_verdict(chk, fx)
 
 
 def reader_helpers(fx, root):
@@ -280,6 +281,15 @@ def r1_reader(chk, fx, root, bodies, adt, succ):
         ok = bool(srcs) and all(c.rdef and "rpc::error::Error as netconf::message::ReadXml>::read_xml" in c.rdef for c in srcs)
         chk.instance("C08/R3", "pushed error is the rpc-error element just parsed", b.name, p.loc(), holds=ok,
                      key="C08/R3 %s pushed-error-origin" % fn)
+    # the error list lives as long as the reply is being read: creating it anew inside a reading loop forgets what was collected
+    for b in bodies:
+        heads = b.loop_heads()
+        for c in b.calls():
+            if c.is_fn("Errors::new") and not c.macro:
+                inside = any(c.bb in b.natural_loop(h) for h in heads)
+                chk.instance("C08/R3", "the error list is created once, outside the reading loop", b.name, c.loc(), holds=not inside,
+                             key="C08/R3 %s error-list-recreated-in-loop" % fn,
+                             detail=None if not inside else "rpc-errors collected before this point no longer count: a later <ok/> is accepted")
     # Errs(errors): payload is the accumulated Errors local
     n_errs = 0
     for bb in bodies:
@@ -415,3 +425,12 @@ def r4_strict_reader(chk, fx, name):
         strict = bool(ca) and all("returnResult::Err(" in a.body_text() for a in ca)
         chk.instance("C08/R4", "%s: the catch-all arm fails the reply" % lp.label(), lp.fn, loc_of((ca or [lp])[0].sp), holds=strict,
                      key="C08/R4 %s catch-all-accepts" % lp.label())
+
+
+# ---------------------------------------------------------------------------------------------
+def r5_wrappers_keep_the_verdict(chk, fx):
+    """Between the reply's into_result() and the caller stands, for <close-session>, Session::close: an Err (the server's rpc-error
+    included) must come out as Err.  Same decision as C04/R7, recorded here."""
+    from .c15 import _Rename
+    from . import c04
+    c04.r7_close_verdict(_Rename(chk, "C04/R7", "C08/R5"), fx)
